@@ -159,8 +159,14 @@ func genC17(seed uint64, r *rng.Rand) *Plan {
 		kind := []string{"regioninfo-offline", "server-empty", "server-absent", "regioninfo-bad-proto", "regioninfo-empty", "regioninfo-absent", "region-older", "region-older-parent", "region-older-parent", "rowkey-search-key"}[g.R.Intn(10)]
 		p.Faults = append(p.Faults, &Fault{On: "exec", N: at, Act: "metabad", Rule: &hb.Rule{Msg: kind}})
 		if at > 0 {
-			// make the client look the regions up again
-			p.Faults = append(p.Faults, &Fault{On: "exec", N: at, Act: "rule", Rule: &hb.Rule{Class: hb.NotServingClasses[g.R.Intn(2)], Count: -1, Server: -1, Level: "region", Table: ts.Name}})
+			// make the client look the regions up again: by not-serving answers
+			// (the regions keep their connection while they are re-established) or by
+			// a connection reset (they lose it)
+			if g.R.Chance(0.5) {
+				p.Faults = append(p.Faults, &Fault{On: "exec", N: at, Act: "rule", Rule: &hb.Rule{Class: hb.NotServingClasses[g.R.Intn(2)], Count: -1, Server: -1, Level: "region", Table: ts.Name}})
+			} else {
+				p.Faults = append(p.Faults, &Fault{On: "exec", N: at + g.R.Range(0, 3), Act: "reset", Server: g.R.Intn(p.Layout.Servers)})
+			}
 		}
 	case "nsre-request-only":
 		p.Faults = append(p.Faults, &Fault{On: "exec", N: at, Act: "rule", Rule: &hb.Rule{Class: hb.NotServingClasses[g.R.Intn(2)], Count: -1, Server: -1, Level: []string{"action", "region"}[g.R.Intn(2)]}})
@@ -215,6 +221,14 @@ func (w *World) checkC17() []Violation {
 		// the same allowance is made for not-serving answers, whose retries wait
 		// for the re-establishment of the region instead
 		free = 2
+	case "meta-rows-bad":
+		// the variant "after some progress" forces the re-lookup with not-serving
+		// answers: the same allowance as in nsre-request-only
+		for _, f := range w.Plan.Faults {
+			if f.Act == "rule" && f.Rule != nil && (f.Rule.Class == hb.NotServingClasses[0] || f.Rule.Class == hb.NotServingClasses[1]) {
+				free = 2
+			}
+		}
 	}
 	// (1) attempts per user request
 	byNonce := map[uint64][]int64{}
